@@ -13,6 +13,8 @@ KEYS = [
     "notes2", "STEPSTYPE", "stepstype", "CREDIT", "OFFSET", "FOO", "foo", "", " A", "B ", "K\\:1", "é", "straße",
     # keys written with a backslash escape inside or in front of them: the tokenizer's unescaped key is what counts
     "VER\\SION", "\\version", "NOTE\\S", "NOTE\\DATA", "TI\\TLE",
+    # aliases next to their standard keys: both are ordinary keys of the mapping and both are written back
+    "BGCHANGES", "ANIMATIONS", "animations", "STOPS", "FREEZES", "freezes", "BGCHANGES", "ANIMATIONS",
 ]
 # whitespace other than blank/tab/CR/LF that str.strip() removes as well ("whitespace-trimmed" chart fields)
 RARE_WS = ["\u3000", "\xa0", "\x0b", "\x0c", "\x1c", "\x1f", "\u2028", "\x85", "\u2003"]
